@@ -21,7 +21,7 @@ pub mod models { pub use crate::*; }   // crate::models::X paths in extracted te
 
 verus! {
 
-broadcast use {vstd::std_specs::hash::group_hash_axioms, vpre::group_string_keys, vfmt::group_disp, vstr::axiom_pat_char, vstr::axiom_pat_str, vstr::axiom_pat_char_not_str};
+broadcast use {vstd::std_specs::hash::group_hash_axioms, vpre::group_string_keys, vfmt::group_disp, vstr::axiom_pat_char, vstr::axiom_pat_str, vstr::axiom_pat_char_not_str, vstr::axiom_pat_chars};
 
 //@ FORMAT-MACRO
 
@@ -180,6 +180,7 @@ impl RenameRule {
 }
 
 //@ EXTRACT-RAW file=src/generators/base/template_context.rs item="const JS_RESERVED_WORDS" static_lifetime=1
+//@ EXTRACT-RAW file=src/generators/base/template_context.rs item="const ASCII_DIGITS"
 
 impl FieldContext {
 
@@ -240,17 +241,43 @@ impl FieldContext {
 //@ CONTRACT
 //@|    requires rust_ident(name@),
 //@|    ensures
-//@|        // C01: the wrapper is the camelCase name, with an underscore appended when that is a reserved word
-//@|        r@ == (if js_reserved(camel_spec(name@)) { camel_spec(name@) + "_"@ } else { camel_spec(name@) }),
+//@|        // C01: the wrapper is the camelCase name; `_` is appended when that is a reserved word and put in front when
+//@|        // it is empty or starts with a digit
+//@|        r@ == wrapper_name(camel_spec(name@)),
 //@|        !js_reserved(r@),
+//@|        // ... and that is a legal identifier whenever the camelCase form consists of identifier characters
+//@|        all_ident_chars(camel_spec(name@)) ==> ts_ident(r@),
 //@ BEFORE `if JS_RESERVED_WORDS.contains(&function_name.as_str())`
-//@|    proof { lemma_reserved_plus_underscore(function_name@); }
+//@|    proof {
+//@|        lemma_reserved_plus_underscore(function_name@);
+//@|        lemma_underscore_first_not_reserved(function_name@);
+//@|        if all_ident_chars(function_name@) { lemma_wrapper_name_is_identifier(function_name@); }
+//@|        assert(ASCII_DIGITS@ =~= seq!['0', '1', '2', '3', '4', '5', '6', '7', '8', '9']);
+//@|        if function_name@.len() > 0 { assert(ASCII_DIGITS@.contains(function_name@[0]) <==> ascii_digit(function_name@[0])) by {
+//@|            let c = function_name@[0];
+//@|            if ascii_digit(c) { let k = (c as u32 - '0' as u32) as int; assert(0 <= k < 10); assert(ASCII_DIGITS@[k] == c); }
+//@|        } }
+//@|    }
 //@ END
 
 //@ EXTRACT-FN file=src/generators/base/template_context.rs in="trait NamingContext" fn=compute_type_name props=C01,C15
 //@ RETURNS r
 //@ CONTRACT
-//@|    ensures r@ == pascal_spec(name@),
+//@|    ensures
+//@|        r@ == (if needs_underscore(pascal_spec(name@)) { "_"@ + pascal_spec(name@) } else { pascal_spec(name@) }),
+//@|        all_ident_chars(pascal_spec(name@)) ==> ts_ident(r@),
+//@ BEFORE `if type_name.is_empty() || type_name.starts_with(ASCII_DIGITS)`
+//@|    proof {
+//@|        reveal_strlit("_");
+//@|        assert(ASCII_DIGITS@ =~= seq!['0', '1', '2', '3', '4', '5', '6', '7', '8', '9']);
+//@|        if type_name@.len() > 0 { assert(ASCII_DIGITS@.contains(type_name@[0]) <==> ascii_digit(type_name@[0])) by {
+//@|            let c = type_name@[0];
+//@|            if ascii_digit(c) { let k = (c as u32 - '0' as u32) as int; assert(0 <= k < 10); assert(ASCII_DIGITS@[k] == c); }
+//@|        } }
+//@|        let t = "_"@ + type_name@;
+//@|        assert(t[0] == '_');
+//@|        assert forall|i: int| 0 <= i < t.len() && all_ident_chars(type_name@) implies ident_char(#[trigger] t[i]) by { if i >= 1 { assert(t[i] == type_name@[i - 1]); } }
+//@|    }
 //@ END
 
 }
@@ -275,6 +302,52 @@ pub open spec fn js_reserved(s: Seq<char>) -> bool {
     || s == "instanceof"@ || s == "new"@ || s == "null"@ || s == "switch"@ || s == "this"@ || s == "throw"@
     || s == "typeof"@ || s == "var"@ || s == "void"@ || s == "with"@ || s == "implements"@ || s == "interface"@
     || s == "package"@ || s == "private"@ || s == "protected"@ || s == "public"@ || s == "arguments"@ || s == "eval"@
+}
+
+pub open spec fn all_ident_chars(s: Seq<char>) -> bool { forall|i: int| 0 <= i < s.len() ==> ident_char(#[trigger] s[i]) }
+/// empty or starting with a digit: not an identifier as it stands
+pub open spec fn needs_underscore(s: Seq<char>) -> bool { s.len() == 0 || ascii_digit(s[0]) }
+/// C01: the name of a command wrapper, given the camelCase form of the Rust name
+pub open spec fn wrapper_name(camel: Seq<char>) -> Seq<char> {
+    if js_reserved(camel) { camel + "_"@ } else if needs_underscore(camel) { "_"@ + camel } else { camel }
+}
+
+/// a name starting with `_` is not a reserved word
+pub proof fn lemma_underscore_first_not_reserved(s: Seq<char>)
+    ensures !js_reserved("_"@ + s),
+{
+    reveal_strlit("_");
+    let t = "_"@ + s;
+    assert(t[0] == '_');
+    reveal_strlit("case"); reveal_strlit("catch"); reveal_strlit("class"); reveal_strlit("debugger"); reveal_strlit("default"); reveal_strlit("delete");
+    reveal_strlit("do"); reveal_strlit("export"); reveal_strlit("extends"); reveal_strlit("finally"); reveal_strlit("function"); reveal_strlit("import");
+    reveal_strlit("instanceof"); reveal_strlit("new"); reveal_strlit("null"); reveal_strlit("switch"); reveal_strlit("this"); reveal_strlit("throw");
+    reveal_strlit("typeof"); reveal_strlit("var"); reveal_strlit("void"); reveal_strlit("with"); reveal_strlit("implements"); reveal_strlit("interface");
+    reveal_strlit("package"); reveal_strlit("private"); reveal_strlit("protected"); reveal_strlit("public"); reveal_strlit("arguments"); reveal_strlit("eval");
+}
+
+/// C01: the wrapper name is an identifier whenever the camelCase form consists of identifier characters
+pub proof fn lemma_wrapper_name_is_identifier(camel: Seq<char>)
+    requires all_ident_chars(camel),
+    ensures ts_ident(wrapper_name(camel)),
+{
+    reveal_strlit("_");
+    if js_reserved(camel) {
+        reveal_strlit("case"); reveal_strlit("catch"); reveal_strlit("class"); reveal_strlit("debugger"); reveal_strlit("default"); reveal_strlit("delete");
+        reveal_strlit("do"); reveal_strlit("export"); reveal_strlit("extends"); reveal_strlit("finally"); reveal_strlit("function"); reveal_strlit("import");
+        reveal_strlit("instanceof"); reveal_strlit("new"); reveal_strlit("null"); reveal_strlit("switch"); reveal_strlit("this"); reveal_strlit("throw");
+        reveal_strlit("typeof"); reveal_strlit("var"); reveal_strlit("void"); reveal_strlit("with"); reveal_strlit("implements"); reveal_strlit("interface");
+        reveal_strlit("package"); reveal_strlit("private"); reveal_strlit("protected"); reveal_strlit("public"); reveal_strlit("arguments"); reveal_strlit("eval");
+        let t = camel + "_"@;
+        assert(camel.len() >= 2);
+        assert(t[0] == camel[0]);
+        assert(!ascii_digit(camel[0]));
+        assert forall|i: int| 0 <= i < t.len() implies ident_char(#[trigger] t[i]) by { if i < camel.len() { assert(t[i] == camel[i]); } else { assert(t[i] == '_'); } }
+    } else if needs_underscore(camel) {
+        let t = "_"@ + camel;
+        assert(t[0] == '_');
+        assert forall|i: int| 0 <= i < t.len() implies ident_char(#[trigger] t[i]) by { if i >= 1 { assert(t[i] == camel[i - 1]); } }
+    }
 }
 
 /// a reserved word followed by `_` is not a reserved word
@@ -386,6 +459,41 @@ pub proof fn lemma_C12_listener_name_is_an_identifier(e: Seq<char>)
     assert(r[0] == 'o');
     assert forall|i: int| 0 <= i < r.len() implies ident_char(#[trigger] r[i]) by {
         if i >= 2 { assert(r[i] == p[i - 2]); }
+    }
+}
+
+//@ PROPS C01
+/// C01: "every declared function, type and parameter name is a legal identifier" for command wrappers and their parameter
+/// types: for every (ASCII) Rust function name — including `_1st`, `__`, `delete` — the names computed by
+/// compute_function_name / compute_type_name are TypeScript identifiers
+pub proof fn lemma_C01_command_names_are_identifiers(name: Seq<char>)
+    requires all_alnum_or_us(name),
+    ensures
+        ts_ident(wrapper_name(camel_spec(name))),
+        ts_ident(if needs_underscore(pascal_spec(name)) { "_"@ + pascal_spec(name) } else { pascal_spec(name) }),
+{
+    broadcast use axiom_ascii_case;
+    broadcast use axiom_lowercase_ascii;
+    reveal_strlit("_");
+    lemma_pascal_alnum(name, true);
+    let p = pascal_spec(name);
+    assert(all_ident_chars(p)) by { assert forall|i: int| 0 <= i < p.len() implies ident_char(#[trigger] p[i]) by { assert(ascii_alnum(p[i])); } }
+    let c = camel_spec(name);
+    assert(all_ident_chars(c)) by {
+        if p.len() > 0 {
+            assert((p[0] as u32) < 128) by { assert(ascii_alnum(p[0])); }
+            assert(lowercase_seq(p[0]) == seq![lower(p[0])]);
+            assert(c == seq![lower(p[0])] + p.skip(1));
+            assert forall|i: int| 0 <= i < c.len() implies ident_char(#[trigger] c[i]) by {
+                if i == 0 { assert(ascii_alnum(lower(p[0]))); } else { assert(c[i] == p[i]); assert(ascii_alnum(p[i])); }
+            }
+        }
+    }
+    lemma_wrapper_name_is_identifier(c);
+    let t = "_"@ + p;
+    if needs_underscore(p) {
+        assert(t[0] == '_');
+        assert forall|i: int| 0 <= i < t.len() implies ident_char(#[trigger] t[i]) by { if i >= 1 { assert(t[i] == p[i - 1]); } }
     }
 }
 
